@@ -209,272 +209,3 @@ Proof.
   f_equal. ring.
 Qed.
 End Bbc.
-
-(* ---------------- q120b add / sub / negate (arithmetic.rs add_bbb_ref, prim.rs NttSub / NttNegate) ---------------- *)
-Section AddSub.
-Variable q : Z.
-Hypothesis Hq : 0 < q < 2 ^ 30.          (* Primes29 / Primes30: Q[k] << 33 < 2^63 *)
-
-Lemma qshift_val : qshift q = q * 2 ^ 33 /\ 0 < q * 2 ^ 33 < 2 ^ 63.
-Proof.
-  unfold qshift, q_shift. change (2 ^ 30) with 1073741824 in Hq. change (2 ^ 33) with 8589934592.
-  change (2 ^ 63) with 9223372036854775808.
-  rewrite u64_id by (change (2 ^ 64) with 18446744073709551616; lia). lia.
-Qed.
-
-Lemma mod_qs_congr x : (x mod (q * 2 ^ 33)) mod q = x mod q.
-Proof.
-  destruct qshift_val as [_ Hs]. symmetry. apply Zmod_div_mod; [lia|lia|]. exists (2 ^ 33). ring.
-Qed.
-
-Theorem add_bbb_congr x y :
-  add_bbb_k q x y mod q = (x + y) mod q /\ 0 <= add_bbb_k q x y < 2 * qshift q /\ 2 * qshift q < 2 ^ 64.
-Proof.
-  destruct qshift_val as [E Hs]. unfold add_bbb_k. rewrite E.
-  pose proof (Z.mod_pos_bound x (q * 2 ^ 33) ltac:(lia)) as Hx. pose proof (Z.mod_pos_bound y (q * 2 ^ 33) ltac:(lia)) as Hy.
-  change (2 ^ 63) with 9223372036854775808 in *. change (2 ^ 64) with 18446744073709551616 in *.
-  rewrite u64_id by (change (2 ^ 64) with 18446744073709551616; lia).
-  split; [|lia].
-  rewrite Z.add_mod, !mod_qs_congr, <- Z.add_mod by lia. reflexivity.
-Qed.
-
-Theorem sub_bbb_congr x y :
-  sub_bbb_k q x y mod q = (x - y) mod q /\ 0 <= sub_bbb_k q x y < 2 * qshift q.
-Proof.
-  destruct qshift_val as [E Hs]. unfold sub_bbb_k. rewrite E.
-  pose proof (Z.mod_pos_bound x (q * 2 ^ 33) ltac:(lia)) as Hx. pose proof (Z.mod_pos_bound y (q * 2 ^ 33) ltac:(lia)) as Hy.
-  change (2 ^ 63) with 9223372036854775808 in *.
-  rewrite (u64_id (q * 2 ^ 33 - _)) by (change (2 ^ 64) with 18446744073709551616; lia).
-  rewrite u64_id by (change (2 ^ 64) with 18446744073709551616; lia).
-  split; [|lia].
-  replace (x mod (q * 2 ^ 33) + (q * 2 ^ 33 - y mod (q * 2 ^ 33))) with (x mod (q * 2 ^ 33) - y mod (q * 2 ^ 33) + 2 ^ 33 * q) by ring.
-  rewrite Z.mod_add by lia.
-  rewrite Zminus_mod, !mod_qs_congr, <- Zminus_mod. reflexivity.
-Qed.
-
-Theorem neg_b_congr x : neg_b_k q x mod q = (- x) mod q /\ 0 < neg_b_k q x <= qshift q.
-Proof.
-  destruct qshift_val as [E Hs]. unfold neg_b_k. rewrite E.
-  pose proof (Z.mod_pos_bound x (q * 2 ^ 33) ltac:(lia)) as Hx.
-  change (2 ^ 63) with 9223372036854775808 in *.
-  rewrite u64_id by (change (2 ^ 64) with 18446744073709551616; lia).
-  split; [|lia].
-  replace (q * 2 ^ 33 - x mod (q * 2 ^ 33)) with (0 - x mod (q * 2 ^ 33) + 2 ^ 33 * q) by ring.
-  rewrite Z.mod_add by lia. rewrite Zminus_mod, mod_qs_congr, <- Zminus_mod. reflexivity.
-Qed.
-End AddSub.
-
-(* add_bbb_ref is generic in the prime set and documents "fits in 64 bits provided the inputs satisfy x, y < Q[k] << 33".
-   For Primes31, Q[k] << 33 is just below 2^64: the u64 addition wraps and the residue is lost. *)
-Theorem add_bbb_primes31_refuted : exists x y,
-  let q := qk primes31 0 in
-  0 <= x < qshift q /\ 0 <= y < qshift q /\ add_bbb_k q x y mod q <> (x + y) mod q.
-Proof.
-  exists (qshift (qk primes31 0) - 1), (qshift (qk primes31 0) - 1). vm_compute. repeat split; discriminate.
-Qed.
-
-(* ---------------- bbb: q120b x q120b ---------------- *)
-Definition parts_z (p : Z * Z) : Z * Z * Z * Z :=
-  let xl := fst p mod 2 ^ 32 in let xh := fst p / 2 ^ 32 in
-  let yl := snd p mod 2 ^ 32 in let yh := snd p / 2 ^ 32 in
-  let a := xl * yl in let b := xl * yh in let c := xh * yl in let d := xh * yh in
-  (a mod 2 ^ 32, a / 2 ^ 32 + b mod 2 ^ 32 + c mod 2 ^ 32, b / 2 ^ 32 + c / 2 ^ 32 + d mod 2 ^ 32, d / 2 ^ 32).
-Definition P1 (p : Z * Z) := fst (fst (fst (parts_z p))).
-Definition P2 (p : Z * Z) := snd (fst (fst (parts_z p))).
-Definition P3 (p : Z * Z) := snd (fst (parts_z p)).
-Definition P4 (p : Z * Z) := snd (parts_z p).
-Definition pair_ok (p : Z * Z) : Prop := 0 <= fst p < 2 ^ 64 /\ 0 <= snd p < 2 ^ 64.
-
-Lemma halves x : 0 <= x < 2 ^ 64 -> is_u32 (x mod 2 ^ 32) /\ is_u32 (x / 2 ^ 32) /\ x mod 2 ^ 32 + 2 ^ 32 * (x / 2 ^ 32) = x.
-Proof.
-  intros H. unfold is_u32. change (2 ^ 64) with (2 ^ 32 * 2 ^ 32) in H. change (2 ^ 32) with 4294967296 in *.
-  pose proof (Z.mod_pos_bound x 4294967296 ltac:(lia)). pose proof (Z.div_mod x 4294967296 ltac:(lia)).
-  assert (x / 4294967296 < 4294967296) by (apply Z.div_lt_upper_bound; lia).
-  pose proof (Z.div_pos x 4294967296). lia.
-Qed.
-
-Lemma bbb_parts_ok p : pair_ok p ->
-  bbb_parts p = parts_z p /\
-  0 <= P1 p <= 2 ^ 32 - 1 /\ 0 <= P2 p <= 3 * (2 ^ 32 - 1) /\ 0 <= P3 p <= 3 * (2 ^ 32 - 1) /\ 0 <= P4 p <= 2 ^ 32 - 2 /\
-  P1 p + 2 ^ 32 * P2 p + 2 ^ 64 * P3 p + 2 ^ 96 * P4 p = fst p * snd p.
-Proof.
-  intros [Hx Hy]. destruct (halves _ Hx) as (Xl & Xh & Ex). destruct (halves _ Hy) as (Yl & Yh & Ey).
-  unfold P1, P2, P3, P4, bbb_parts, parts_z. cbv zeta. cbn [fst snd].
-  set (xl := fst p mod 2 ^ 32) in *. set (xh := fst p / 2 ^ 32) in *.
-  set (yl := snd p mod 2 ^ 32) in *. set (yh := snd p / 2 ^ 32) in *.
-  pose proof (mul_u32_bound _ _ Xl Yl) as Ba. pose proof (mul_u32_bound _ _ Xl Yh) as Bb.
-  pose proof (mul_u32_bound _ _ Xh Yl) as Bc. pose proof (mul_u32_bound _ _ Xh Yh) as Bd.
-  pose proof (hi32_bound _ Ba) as Ha. pose proof (hi32_bound _ Bb) as Hb.
-  pose proof (hi32_bound _ Bc) as Hc. pose proof (hi32_bound _ Bd) as Hd.
-  assert (M : 0 < 2 ^ 32) by reflexivity.
-  pose proof (Z.mod_pos_bound (xl * yl) _ M) as La. pose proof (Z.mod_pos_bound (xl * yh) _ M) as Lb.
-  pose proof (Z.mod_pos_bound (xh * yl) _ M) as Lc. pose proof (Z.mod_pos_bound (xh * yh) _ M) as Ld.
-  pose proof (split32 (xl * yl) ltac:(lia)) as Sa. pose proof (split32 (xl * yh) ltac:(lia)) as Sb.
-  pose proof (split32 (xh * yl) ltac:(lia)) as Sc. pose proof (split32 (xh * yh) ltac:(lia)) as Sd.
-  set (a := xl * yl) in *. set (b := xl * yh) in *. set (c := xh * yl) in *. set (d := xh * yh) in *.
-  assert (E64 : 2 ^ 64 = 2 ^ 32 * 2 ^ 32) by reflexivity. assert (E96 : 2 ^ 96 = 2 ^ 32 * 2 ^ 32 * 2 ^ 32) by reflexivity.
-  set (al := a mod 2 ^ 32) in *. set (ah := a / 2 ^ 32) in *. set (bl := b mod 2 ^ 32) in *. set (bh := b / 2 ^ 32) in *.
-  set (cl := c mod 2 ^ 32) in *. set (ch := c / 2 ^ 32) in *. set (dl := d mod 2 ^ 32) in *. set (dh := d / 2 ^ 32) in *.
-  assert (T : 2 ^ 32 = 4294967296) by reflexivity.
-  rewrite (u64_id a), (u64_id b), (u64_id c), (u64_id d) by (rewrite E64; nia).
-  fold al ah bl bh cl ch dl dh.
-  rewrite (u64_id (ah + bl)), (u64_id (bh + ch)) by (rewrite E64; nia).
-  rewrite (u64_id (ah + bl + cl)), (u64_id (bh + ch + dl)) by (rewrite E64; nia).
-  split; [reflexivity|].
-  repeat split; lia.
-Qed.
-
-Lemma mul_bound a b A B : 0 <= a <= A -> 0 <= b <= B -> 0 <= a * b <= A * B.
-Proof. intros Ha Hb. split; [apply Z.mul_nonneg_nonneg; lia|apply Z.mul_le_mono_nonneg; lia]. Qed.
-
-(* low/high split of an accumulator and its recombination with reduced powers of two *)
-Lemma collapse_congr q h s pl ph w : 0 < q -> 0 <= h ->
-  pl mod q = w mod q -> ph mod q = (w * 2 ^ h) mod q ->
-  ((s mod 2 ^ h) * pl + (s / 2 ^ h) * ph) mod q = (s * w) mod q.
-Proof.
-  intros Hq Hh Hl Hhh. pose proof (pow2_pos h Hh) as Hp.
-  rewrite (Z.div_mod s (2 ^ h)) at 3 by lia.
-  rewrite Z.add_mod, <- (Z.mul_mod_idemp_r (s mod 2 ^ h)), Hl, <- (Z.mul_mod_idemp_r (s / 2 ^ h)), Hhh by lia.
-  rewrite !Z.mul_mod_idemp_r, <- Z.add_mod by lia. f_equal. ring.
-Qed.
-
-Definition bbb_dot (xy : list (Z * Z)) : Z := lsum (map (fun p => fst p * snd p) xy).
-
-Section Bbb.
-Variables (h q : Z) (xy : list (Z * Z)).
-Hypothesis Hh : 20 <= h <= 28.          (* the f64 search of BbbMeta::new returns 24 for the three prime sets *)
-Hypothesis Hq : 2 ^ 15 <= q < 2 ^ 31.
-Hypothesis Hell : Z.of_nat (length xy) <= bbb_max_ell.
-Hypothesis Hok : forall p, In p xy -> pair_ok p.
-
-Let s1 := lsum (map P1 xy).
-Let s2 := lsum (map P2 xy).
-Let s3 := lsum (map P3 xy).
-Let s4 := lsum (map P4 xy).
-
-Lemma bbb_acc_bounds : 0 <= s1 <= 10000 * (2 ^ 32 - 1) /\ 0 <= s2 <= 10000 * (3 * (2 ^ 32 - 1)) /\
-                       0 <= s3 <= 10000 * (3 * (2 ^ 32 - 1)) /\ 0 <= s4 <= 10000 * (2 ^ 32 - 2).
-Proof.
-  unfold bbb_max_ell in Hell.
-  assert (L1 : 0 <= s1 <= Z.of_nat (length (map P1 xy)) * (2 ^ 32 - 1)) by (apply lsum_bounds, in_map_bound; intros p Hp; apply (bbb_parts_ok p (Hok p Hp))).
-  assert (L2 : 0 <= s2 <= Z.of_nat (length (map P2 xy)) * (3 * (2 ^ 32 - 1))) by (apply lsum_bounds, in_map_bound; intros p Hp; apply (bbb_parts_ok p (Hok p Hp))).
-  assert (L3 : 0 <= s3 <= Z.of_nat (length (map P3 xy)) * (3 * (2 ^ 32 - 1))) by (apply lsum_bounds, in_map_bound; intros p Hp; apply (bbb_parts_ok p (Hok p Hp))).
-  assert (L4 : 0 <= s4 <= Z.of_nat (length (map P4 xy)) * (2 ^ 32 - 2)) by (apply lsum_bounds, in_map_bound; intros p Hp; apply (bbb_parts_ok p (Hok p Hp))).
-  rewrite map_length in *. change (2 ^ 32) with 4294967296 in *. nia.
-Qed.
-
-Lemma bbb_sums_exact :
-  let ps := map bbb_parts xy in
-  sum64 (map (fun p => fst (fst (fst p))) ps) = s1 /\ sum64 (map (fun p => snd (fst (fst p))) ps) = s2 /\
-  sum64 (map (fun p => snd (fst p)) ps) = s3 /\ sum64 (map (fun p => snd p) ps) = s4.
-Proof.
-  cbv zeta. destruct bbb_acc_bounds as (B1 & B2 & B3 & B4).
-  assert (E : map bbb_parts xy = map parts_z xy) by (apply map_ext_in; intros p Hp; apply (bbb_parts_ok p (Hok p Hp))).
-  rewrite E, !map_map.
-  change (map (fun x => fst (fst (fst (parts_z x)))) xy) with (map P1 xy).
-  change (map (fun x => snd (fst (fst (parts_z x)))) xy) with (map P2 xy).
-  change (map (fun x => snd (fst (parts_z x))) xy) with (map P3 xy).
-  change (map (fun x => snd (parts_z x)) xy) with (map P4 xy).
-  change (2 ^ 32) with 4294967296 in *.
-  repeat split; apply sum64_exact;
-    try (intros t Ht; apply in_map_iff in Ht as (p & <- & Hp); apply (bbb_parts_ok p (Hok p Hp)));
-    change (2 ^ 64) with 18446744073709551616; fold s1 s2 s3 s4; lia.
-Qed.
-
-Definition bbb_exact : Z :=
-  let w32 := 2 ^ 32 mod q in
-  let w32h := (w32 * 2 ^ h) mod q in
-  let w64 := (w32 * w32) mod q in
-  let w64h := (w64 * 2 ^ h) mod q in
-  let w96 := (w64 * w32) mod q in
-  let w96h := (w96 * 2 ^ h) mod q in
-  s1 mod 2 ^ h + s1 / 2 ^ h * 2 ^ h + s2 mod 2 ^ h * w32 + s2 / 2 ^ h * w32h +
-  s3 mod 2 ^ h * w64 + s3 / 2 ^ h * w64h + s4 mod 2 ^ h * w96 + s4 / 2 ^ h * w96h.
-
-Theorem lazy_budget_bbb : bbb_k h q xy = bbb_exact /\ 0 <= bbb_exact < 2 ^ 63.
-Proof.
-  destruct bbb_acc_bounds as (B1 & B2 & B3 & B4). destruct bbb_sums_exact as (S1 & S2 & S3 & S4).
-  unfold bbb_k. cbv zeta. rewrite S1, S2, S3, S4. unfold bbb_exact, pow2_mod. cbv zeta.
-  assert (Hq' : 0 < q) by (change (2 ^ 15) with 32768 in Hq; lia).
-  assert (H2h : 2 ^ 20 <= 2 ^ h <= 2 ^ 28) by (split; apply Z.pow_le_mono_r; lia).
-  change (2 ^ 20) with 1048576 in H2h. change (2 ^ 28) with 268435456 in H2h.
-  change (2 ^ 31) with 2147483648 in Hq. change (2 ^ 15) with 32768 in Hq. change (2 ^ 32) with 4294967296 in B1, B2, B3, B4.
-  set (H := 2 ^ h) in *.
-  assert (T64 : 2 ^ 64 = 18446744073709551616) by reflexivity.
-  rewrite (u64_id H) by lia.
-  set (w32 := 2 ^ 32 mod q). pose proof (Z.mod_pos_bound (2 ^ 32) q Hq') as W32. fold w32 in W32.
-  assert (W32H : 0 <= w32 * H < 2 ^ 64) by nia. rewrite (u64_id (w32 * H)) by exact W32H.
-  assert (W32W : 0 <= w32 * w32 < 2 ^ 64) by nia. rewrite (u64_id (w32 * w32)) by exact W32W.
-  set (w32h := (w32 * H) mod q). pose proof (Z.mod_pos_bound (w32 * H) q Hq') as W32h. fold w32h in W32h.
-  set (w64 := (w32 * w32) mod q). pose proof (Z.mod_pos_bound (w32 * w32) q Hq') as W64. fold w64 in W64.
-  assert (W64H : 0 <= w64 * H < 2 ^ 64) by nia. rewrite (u64_id (w64 * H)) by exact W64H.
-  assert (W64W : 0 <= w64 * w32 < 2 ^ 64) by nia. rewrite (u64_id (w64 * w32)) by exact W64W.
-  set (w64h := (w64 * H) mod q). pose proof (Z.mod_pos_bound (w64 * H) q Hq') as W64h. fold w64h in W64h.
-  set (w96 := (w64 * w32) mod q). pose proof (Z.mod_pos_bound (w64 * w32) q Hq') as W96. fold w96 in W96.
-  assert (W96H : 0 <= w96 * H < 2 ^ 64) by nia. rewrite (u64_id (w96 * H)) by exact W96H.
-  set (w96h := (w96 * H) mod q). pose proof (Z.mod_pos_bound (w96 * H) q Hq') as W96h. fold w96h in W96h.
-  assert (HH : 0 < H) by lia.
-  pose proof (Z.mod_pos_bound s1 H HH) as L1. pose proof (Z.mod_pos_bound s2 H HH) as L2.
-  pose proof (Z.mod_pos_bound s3 H HH) as L3. pose proof (Z.mod_pos_bound s4 H HH) as L4.
-  assert (D : forall s, 0 <= s <= 128849018850000 -> 0 <= s / H <= 122879999).
-  { intros s Hs. split; [apply Z.div_pos; lia|].
-    apply Z.le_trans with (s / 1048576); [apply Z.div_le_compat_l; lia|].
-    apply Z.le_trans with (128849018850000 / 1048576); [apply Z.div_le_mono; lia|]. vm_compute; discriminate. }
-  pose proof (D s1 ltac:(lia)) as D1. pose proof (D s2 ltac:(lia)) as D2.
-  pose proof (D s3 ltac:(lia)) as D3. pose proof (D s4 ltac:(lia)) as D4.
-  assert (D1' : 0 <= s1 / H * H <= s1) by (pose proof (Z.div_mod s1 H ltac:(lia)); lia).
-  set (l1 := s1 mod H) in *. set (h1 := s1 / H) in *. set (l2 := s2 mod H) in *. set (h2 := s2 / H) in *.
-  set (l3 := s3 mod H) in *. set (h3 := s3 / H) in *. set (l4 := s4 mod H) in *. set (h4 := s4 / H) in *.
-  assert (A2 : 0 <= l2 * w32 <= 268435456 * 2147483648) by (apply mul_bound; lia).
-  assert (A3 : 0 <= h2 * w32h <= 122879999 * 2147483648) by (apply mul_bound; lia).
-  assert (A4 : 0 <= l3 * w64 <= 268435456 * 2147483648) by (apply mul_bound; lia).
-  assert (A5 : 0 <= h3 * w64h <= 122879999 * 2147483648) by (apply mul_bound; lia).
-  assert (A6 : 0 <= l4 * w96 <= 268435456 * 2147483648) by (apply mul_bound; lia).
-  assert (A7 : 0 <= h4 * w96h <= 122879999 * 2147483648) by (apply mul_bound; lia).
-  change (2 ^ 63) with 9223372036854775808.
-  rewrite (u64_id (h1 * H)), (u64_id (l2 * w32)), (u64_id (h2 * w32h)), (u64_id (l3 * w64)),
-          (u64_id (h3 * w64h)), (u64_id (l4 * w96)), (u64_id (h4 * w96h)) by (rewrite T64; lia).
-  rewrite (u64_id (l1 + h1 * H)) by (rewrite T64; lia).
-  rewrite (u64_id (l1 + h1 * H + l2 * w32)) by (rewrite T64; lia).
-  rewrite (u64_id (l1 + h1 * H + l2 * w32 + h2 * w32h)) by (rewrite T64; lia).
-  rewrite (u64_id (l1 + h1 * H + l2 * w32 + h2 * w32h + l3 * w64)) by (rewrite T64; lia).
-  rewrite (u64_id (l1 + h1 * H + l2 * w32 + h2 * w32h + l3 * w64 + h3 * w64h)) by (rewrite T64; lia).
-  rewrite (u64_id (l1 + h1 * H + l2 * w32 + h2 * w32h + l3 * w64 + h3 * w64h + l4 * w96)) by (rewrite T64; lia).
-  rewrite u64_id by (rewrite T64; lia).
-  split; [reflexivity|lia].
-Qed.
-
-Theorem bbb_congr : bbb_k h q xy mod q = bbb_dot xy mod q.
-Proof.
-  destruct lazy_budget_bbb as [-> _]. unfold bbb_exact. cbv zeta.
-  assert (Hq' : 0 < q) by (change (2 ^ 15) with 32768 in Hq; lia).
-  assert (Hh0 : 0 <= h) by lia.
-  assert (E : bbb_dot xy = s1 * 1 + s2 * 2 ^ 32 + s3 * 2 ^ 64 + s4 * 2 ^ 96).
-  { unfold bbb_dot, s1, s2, s3, s4.
-    rewrite (lsum_map_ext (fun p => fst p * snd p) (fun p => (P1 p + 2 ^ 32 * P2 p) + (2 ^ 64 * P3 p + 2 ^ 96 * P4 p)))
-      by (intros p Hp; destruct (bbb_parts_ok p (Hok p Hp)) as (_ & _ & _ & _ & _ & Hid); lia).
-    rewrite (lsum_map_add (fun p => P1 p + 2 ^ 32 * P2 p)), (lsum_map_add P1), (lsum_map_add (fun p => 2 ^ 64 * P3 p)).
-    rewrite !lsum_map_scale. ring. }
-  rewrite E.
-  set (w32 := 2 ^ 32 mod q). set (w64 := (w32 * w32) mod q). set (w96 := (w64 * w32) mod q).
-  assert (C32 : w32 mod q = 2 ^ 32 mod q) by (unfold w32; apply Z.mod_mod; lia).
-  assert (C64 : w64 mod q = 2 ^ 64 mod q).
-  { unfold w64. rewrite Z.mod_mod by lia. unfold w32. rewrite <- Z.mul_mod by lia. reflexivity. }
-  assert (C96 : w96 mod q = 2 ^ 96 mod q).
-  { unfold w96. rewrite Z.mod_mod by lia. rewrite Z.mul_mod, C64, C32, <- Z.mul_mod by lia. reflexivity. }
-  assert (K1 : (s1 mod 2 ^ h * 1 + s1 / 2 ^ h * 2 ^ h) mod q = (s1 * 1) mod q).
-  { apply collapse_congr; try lia. f_equal; ring. }
-  assert (K2 : (s2 mod 2 ^ h * w32 + s2 / 2 ^ h * ((w32 * 2 ^ h) mod q)) mod q = (s2 * 2 ^ 32) mod q).
-  { apply collapse_congr; try lia. rewrite Z.mod_mod by lia. rewrite Z.mul_mod, C32, <- Z.mul_mod by lia. reflexivity. }
-  assert (K3 : (s3 mod 2 ^ h * w64 + s3 / 2 ^ h * ((w64 * 2 ^ h) mod q)) mod q = (s3 * 2 ^ 64) mod q).
-  { apply collapse_congr; try lia. rewrite Z.mod_mod by lia. rewrite Z.mul_mod, C64, <- Z.mul_mod by lia. reflexivity. }
-  assert (K4 : (s4 mod 2 ^ h * w96 + s4 / 2 ^ h * ((w96 * 2 ^ h) mod q)) mod q = (s4 * 2 ^ 96) mod q).
-  { apply collapse_congr; try lia. rewrite Z.mod_mod by lia. rewrite Z.mul_mod, C96, <- Z.mul_mod by lia. reflexivity. }
-  rewrite Z.mul_1_r in K1.
-  replace (s1 mod 2 ^ h + s1 / 2 ^ h * 2 ^ h + s2 mod 2 ^ h * w32 + s2 / 2 ^ h * ((w32 * 2 ^ h) mod q) +
-           s3 mod 2 ^ h * w64 + s3 / 2 ^ h * ((w64 * 2 ^ h) mod q) + s4 mod 2 ^ h * w96 + s4 / 2 ^ h * ((w96 * 2 ^ h) mod q))
-     with ((s1 mod 2 ^ h + s1 / 2 ^ h * 2 ^ h) + (s2 mod 2 ^ h * w32 + s2 / 2 ^ h * ((w32 * 2 ^ h) mod q)) +
-           (s3 mod 2 ^ h * w64 + s3 / 2 ^ h * ((w64 * 2 ^ h) mod q)) + (s4 mod 2 ^ h * w96 + s4 / 2 ^ h * ((w96 * 2 ^ h) mod q))) by ring.
-  rewrite add4_mod, K1, K2, K3, K4, <- add4_mod by lia. reflexivity.
-Qed.
-End Bbb.
